@@ -52,10 +52,26 @@ type symstr struct {
 	b []*sym.Term
 }
 
-// mapv is a Go map; keys are concrete comparable values.
+// mapv is a Go map; keys are concrete comparable values, except hash keys
+// (hashv) which are compared by their preimage bytes.
 type mapv struct {
-	m    map[value]value
-	keys []value // insertion order (deterministic iteration)
+	m     map[value]value
+	keys  []value // insertion order (deterministic iteration)
+	hkeys []hashEntry
+}
+
+// hashv is the result of FNV-64a over bytes of which some are symbolic. The
+// hash function is abstracted: two hashv are equal iff their preimages are
+// equal byte strings (a true 64-bit collision is outside every claim).
+type hashv struct {
+	c uint64
+	s string      // concrete preimage of this path
+	b []*sym.Term // per-byte terms (nil = concrete)
+}
+
+type hashEntry struct {
+	k *hashv
+	v value
 }
 
 // native wraps a host object that the interpreted program treats as opaque
@@ -178,6 +194,8 @@ func bitsOf(v value) uint64 {
 		return math.Float64bits(v)
 	case *symv:
 		return bitsOf(v.c)
+	case *hashv:
+		return v.c
 	}
 	panic(fmt.Sprintf("bitsOf: %T", v))
 }
@@ -350,7 +368,7 @@ func (m *mapv) length() int {
 	if m == nil {
 		return 0
 	}
-	return len(m.m)
+	return len(m.m) + len(m.hkeys)
 }
 
 // ---- debugging output ----
